@@ -1077,7 +1077,8 @@ class Interp:
                 return self.apply_fn(body, [recv] + args)
             if isinstance(recv, str) and name in ('as_str', 'as_ref', 'deref', 'trim_matches') and not args:
                 return recv
-            if name in ('into', 'clone', 'to_owned', 'as_ref', 'as_mut', 'as_deref', 'as_deref_mut', 'borrow', 'borrow_mut', 'by_ref', 'copied', 'cloned', 'to_string', 'into_owned') and not args and \
+            if name in ('into', 'clone', 'to_owned', 'as_ref', 'as_mut', 'as_deref', 'as_deref_mut', 'borrow', 'borrow_mut', 'by_ref', 'copied', 'cloned', 'to_string', 'into_owned',
+                        'deref', 'deref_mut', 'into_inner') and not args and (name not in ('deref', 'deref_mut', 'into_inner') or 'core::cell::Ref' in (peel(e['recv']).get('t') or '')) and \
                     not (name == 'to_string' and not isinstance(recv, str)):
                 return recv
             if name == 'is_some':
@@ -1325,6 +1326,8 @@ class Interp:
         if k == 'p_tuplestruct':
             if isinstance(v, tuple) and len(v) == 3 and v[0] == 'ctor' and v[1] == p.get('path'):
                 return all(self.matches(x, y, env) for x, y in zip(p['pats'], v[2]))
+            if isinstance(v, tuple) and len(v) == 3 and v[0] == 'struct' and v[1] == p.get('path') and isinstance(v[2], dict) and all(str(i) in v[2] for i in range(len(p['pats']))):
+                return all(self.matches(x, v[2][str(i)], env) for i, x in enumerate(p['pats']))          # a tuple struct kept as a struct with the fields `0`, `1`, ..
             return False
         if k == 'p_struct':
             if isinstance(v, tuple) and len(v) == 3 and v[0] == 'struct':
